@@ -355,8 +355,11 @@ func (e *pExec) step(line string) (out string) {
 			e.dead = true
 			e.cnt.inc("impl.panic")
 			e.find("C16", "panic", strings.Fields(line)[0], fmt.Sprint(r))
-			if strings.HasPrefix(line, "byteat") || strings.HasPrefix(line, "readat") {
-				e.find("C15", "panic", strings.Fields(line)[0], fmt.Sprint(r))
+			op := strings.Fields(line)[0]
+			also := map[string]string{"byteat": "C15", "readat": "C15", "write": "C15", "readfrom": "C15", "shrink": "C15",
+				"reset": "C15", "parsenil": "C14", "wparse": "C08", "parse": "C03"}[op]
+			if also != "" {
+				e.find(also, "panic", op, fmt.Sprint(r))
 			}
 		}
 	}()
@@ -390,10 +393,10 @@ func (e *pExec) step(line string) (out string) {
 		return fmt.Sprintf("%d %s", n, errName(err))
 	case "parse":
 		flags, _ := strconv.Atoi(ws[1])
-		e.blkBuf.Sequences = append(e.blkBuf.Sequences[:0], lz.Seq{LitLen: 9, MatchLen: 9, Offset: 9})
-		e.blkBuf.Literals = append(e.blkBuf.Literals[:0], 0xEE)
+		dirtyBlock(&e.blkBuf)
 		n, err := e.p.Parse(&e.blkBuf, flags)
 		if e.twin != nil {
+			dirtyBlock(&e.twinBlk)
 			n2, err2 := e.twin.Parse(&e.twinBlk, flags)
 			e.cmpTwin("Parse", n, n2, err, err2, true)
 		}
@@ -496,8 +499,7 @@ func (e *pExec) step(line string) (out string) {
 			return "bad-op"
 		}
 		flags, _ := strconv.Atoi(ws[1])
-		e.blkBuf.Sequences = e.blkBuf.Sequences[:0]
-		e.blkBuf.Literals = e.blkBuf.Literals[:0]
+		dirtyBlock(&e.blkBuf)
 		h0 := e.rd.handed
 		pay := append([]byte{}, e.rd.payload...)
 		n, err := e.wp.Parse(&e.blkBuf, flags)
@@ -860,4 +862,26 @@ func (e *pExec) cmpTwin(site string, n, n2 int, err, err2 error, block bool) {
 			fmt.Sprintf("n=%d/%d err=%v/%v seqs=%s / %s", n, n2, err, err2, showSeqs(e.blkBuf.Sequences), showSeqs(e.twinBlk.Sequences)))
 		e.twin = nil
 	}
+}
+
+// dirtyBlock simulates a caller that reuses its Block: the whole capacity of
+// both slices holds leftovers of an upper layer (non-zero Aux, stale
+// literals) and the slices are not empty when Parse is called.
+func dirtyBlock(b *lz.Block) {
+	if cap(b.Sequences) == 0 {
+		b.Sequences = make([]lz.Seq, 0, 4)
+	}
+	if cap(b.Literals) == 0 {
+		b.Literals = make([]byte, 0, 8)
+	}
+	s := b.Sequences[:cap(b.Sequences)]
+	for i := range s {
+		s[i] = lz.Seq{LitLen: 9, MatchLen: 9, Offset: 9, Aux: 0xA0000000 + uint32(i)}
+	}
+	l := b.Literals[:cap(b.Literals)]
+	for i := range l {
+		l[i] = 0xEE
+	}
+	b.Sequences = s[:1]
+	b.Literals = l[:1]
 }
